@@ -168,20 +168,22 @@ def noteCode (n : Note) : String :=
       "d" ++ toString n.val ++ (if n.oct ≠ 0 then ".oabs(" ++ toString n.oct ++ ")" else "")
     else if n.kind = .x then "x" ++ toString n.val
     else n.kind.toStr
+  let printed := n.kind ≠ .r && n.kind ≠ .l          -- every kind but rests and continuations
   let oct :=
-    if n.oct ≠ 0 && isNote then
+    if n.oct ≠ 0 && (isNote || n.kind = .x) then
       (if !n.kind.isRelative then ".o(" else ".oabs(") ++ toString n.oct ++ ")"
     else ""
   let mode := match n.mode with
-    | some md => if isNote then "." ++ md.toStr else ""
+    | some md => if printed then "." ++ md.toStr else ""
     | none => ""
   let acc := match n.acc with
-    | some a => if isNote then "." ++ a.toStr else ""
+    | some a => if printed then "." ++ a.toStr else ""
     | none => ""
   let amp :=
-    if isNote || n.kind = .x then
+    if isNote || n.kind = .x || n.kind = .d then
       let f := ampFigure n.amp
-      if f ≠ "mf" then "." ++ f else ""
+      if f = "n" then ".set_amp(0)"          -- `.n` would be the rhythmic suffix n
+      else if f ≠ "mf" then "." ++ f else ""
     else ""
   let tags := if n.tags.length > 0 then ".add_tags(" ++ tagsRepr n.tags ++ ")" else ""
   head ++ durCode n.dur ++ oct ++ mode ++ acc ++ amp ++ tags
@@ -272,7 +274,7 @@ def chordEq (a b : Chord) : Bool := chordEquals a b && scoreEquals a b
 /-- `Chord.extension_to_str` -/
 def extCode (c : Chord) : String :=
   let e := extText c
-  if e == "5" || e == "" then "" else "['" ++ e ++ "']"
+  if e == "" then "" else "['" ++ e ++ "']"
 
 /-- `Chord.to_code` -/
 def chordCode (c : Chord) : Res String := do
